@@ -19,6 +19,8 @@ def sh(cmd, **kw):
 def main():
     k, n = (int(sys.argv[1]), int(sys.argv[2])) if len(sys.argv) > 2 else (0, 1)
     ids = sorted(os.listdir(os.path.join(VERIF, "equivalent")))
+    if os.environ.get("XV_EQ_ONLY"):
+        ids = [i for i in ids if i in os.environ["XV_EQ_ONLY"].split()]
     bad = 0
     for i, eid in enumerate(ids):
         if i % n != k:
